@@ -190,20 +190,30 @@ def pure_move(ctx: Ctx):
         ctx.finding("PURE-MOVE", f, short, "fixing every mode does not return the initialisation unchanged: the shortcut does not wrap exactly the initialiser's outputs (or they are modified before it)", construct="all-fixed shortcut of parafac")
     # (2) tucker(fixed_factors=...)
     t = repo.func(D + "_tucker.tucker")
-    moved = {"init"}
-    changed = True
-    stmts = [s for s in own_scope_nodes(t.node) if isinstance(s, ast.Assign)]
-    while changed:
-        changed = False
-        for s in stmts:
-            v = s.value
-            srcs = names_in(v)
-            pure = _is_move_expr(v)
-            if pure and srcs & moved:
-                for x in (y for tt in s.targets for y in flat_targets(tt)):
-                    if isinstance(x, ast.Name) and x.id not in moved:
-                        moved.add(x.id)
-                        changed = True
+    def closure(seed_pred):
+        """names reached from the seed by moves only (assignments, for-targets, comprehension
+        elements); ``seed_pred(stmt_value)`` marks seeding definitions"""
+        names = set()
+        changed = True
+        while changed:
+            changed = False
+            for s in own_scope_nodes(t.node):
+                tg, v = None, None
+                if isinstance(s, ast.Assign):
+                    tg, v = s.targets, s.value
+                elif isinstance(s, ast.For):
+                    tg, v = [s.target], s.iter
+                if tg is None:
+                    continue
+                if seed_pred(v) or (_is_move_expr(v) and names_in(v) & names):
+                    for x in (y for tt in tg for y in flat_targets(tt)):
+                        if isinstance(x, ast.Name) and x.id not in names:
+                            names.add(x.id)
+                            changed = True
+        return names
+
+    moved = closure(lambda v: isinstance(v, ast.Name) and v.id == "init") | {"init"}
+    sorted_names = closure(lambda v: _is_move_expr(v) and any(isinstance(c, ast.Call) and call_name(c) == "sorted" for c in ast.walk(v)))
     inserts = []
     for c in own_scope_nodes(t.node):
         if isinstance(c, ast.Call) and isinstance(c.func, ast.Attribute) and c.func.attr == "insert" and len(c.args) == 2:
@@ -217,6 +227,13 @@ def pure_move(ctx: Ctx):
         res.instance("PURE-MOVE", f"tucker: {src(c)}", sample={"inserted": src(val), "moved_from_init": ok, "moved_names": sorted(moved)})
         if not ok:
             ctx.finding("PURE-MOVE", t, c, f"the factor re-inserted at a fixed position (`{src(val)}`) is not an element of the user's `init` reached by moves only: fixed factors are not returned bit-identical", construct=src(c))
+        # sequential list.insert at the original positions is only right in ascending order
+        idx = c.args[0]
+        ib = base_name(idx)
+        sorted_ok = ib in sorted_names and _is_move_expr(idx)
+        res.instance("INSERT-SORTED", f"tucker: {src(c)}", sample={"index": src(idx), "derived_from_sorted": sorted_ok, "sorted_names": sorted(sorted_names)})
+        if not sorted_ok:
+            ctx.finding("INSERT-SORTED", t, c, f"fixed factors are re-inserted one by one with list.insert at position `{src(idx)}`, which is not taken (by moves) from a sorted(...) sequence: for fixed modes given out of order the factors land at the wrong positions", construct=f"{src(c)} position not from sorted(...)")
         # the holder of the fixed factors is read-only
         if b:
             for n in own_scope_nodes(t.node):
@@ -240,7 +257,7 @@ def _is_move_expr(v) -> bool:
             return False
         if isinstance(n, ast.Call):
             nm = call_name(n)
-            if nm not in ("zip", "enumerate", "list", "tuple", "sorted", "reversed"):
+            if nm not in ("zip", "enumerate", "list", "tuple", "sorted", "reversed", "range", "len"):
                 return False
     return True
 
@@ -248,6 +265,7 @@ def _is_move_expr(v) -> bool:
 def run(ctx: Ctx):
     res = ctx.res
     res.rule("FIXED-NOT-WRITTEN", "in the iteration loop every element store into the factor list is indexed by the variable of a loop over the list built as [m for m in range(ndim) if m not in fixed_modes], and with normalize_factors / orthogonalise / linesearch off nothing else re-binds the list", floor=12)
+    res.rule("INSERT-SORTED", "tucker re-inserts the fixed factors with sequential list.insert at positions that come (by moves) from a sorted(...) sequence", floor=1)
     res.rule("PURE-MOVE", "parafac's all-fixed shortcut wraps exactly the initialiser's outputs; in tucker the factors re-inserted at fixed positions are elements of init reached by moves only and their holder is read-only", floor=2)
     res.assume(
         "NOT decided: that iteration starts from exactly the tensor the initialisation represents (weight folding) -- numeric, out of static reach, neither claimed nor listed as a finding",
